@@ -15,6 +15,12 @@ let string_of_num = function
   | Big (s, d) -> "b:" ^ hex_of_z s ^ ":" ^ string_of_zlist d
 let mulfuel a b = nat_of_int (2 * (List.length a + List.length b) + 16)
 
+let string_of_rres = function
+  | RInt v -> string_of_num v
+  | RRat (n, d) -> "R " ^ string_of_num n ^ " " ^ string_of_num d
+  | RErr -> "EXC"
+  | RFuel -> "FUEL"
+
 let string_of_res = function
   | Val l -> "V " ^ string_of_zlist l
   | Bool b -> "B " ^ string_of_bool b
@@ -24,6 +30,10 @@ let string_of_res = function
 let handle = function
   | ["spec2"; op; a; b] -> string_of_res (spec2 (nat_of_int (int_of_string op)) (z_of_hex a) (z_of_hex b))
   | ["spec1"; op; a] -> string_of_res (spec1 (nat_of_int (int_of_string op)) (z_of_hex a))
+  | ["specq2"; op; n1; d1; n2; d2] ->
+     string_of_res (specq2 (nat_of_int (int_of_string op)) (z_of_hex n1) (z_of_hex d1) (z_of_hex n2) (z_of_hex d2))
+  | ["specq1"; op; n1; d1] -> string_of_res (specq1 (nat_of_int (int_of_string op)) (z_of_hex n1) (z_of_hex d1))
+  | ["spec_radix"; r; z] -> string_of_res (spec_radix (z_of_hex r) (z_of_hex z))
   | ["add_digits"; a; b] -> string_of_zlist (add_digits (zlist_of_string a) (zlist_of_string b))
   | ["sub_digits"; a; b] -> string_of_zlist (sub_digits (zlist_of_string a) (zlist_of_string b))
   | ["compare_abs"; a; b] -> hex_of_z (compare_abs (zlist_of_string a) (zlist_of_string b))
@@ -55,6 +65,53 @@ let handle = function
      let x = num_of a and y = num_of b in
      let l = function Fix _ -> 1 | Big (_, d) -> List.length d in
      (match num_mul (nat_of_int (2 * (l x + l y) + 16)) x y with Some r -> string_of_num r | None -> "FUEL")
+  | [("num_quotient" | "num_remainder" | "vm_quotient" | "vm_remainder") as fn; a; b] ->
+     let x = num_of a and y = num_of b in
+     let l = function Fix _ -> 1 | Big (_, d) -> List.length d in
+     let fuel = nat_of_int (2 * l x + 8) and mf = nat_of_int (2 * (l x + l y) + 16) in
+     let r = (match fn with
+              | "num_quotient" -> num_quotient fuel mf x y | "num_remainder" -> num_remainder fuel mf x y
+              | "vm_quotient" -> vm_quotient fuel mf x y | _ -> vm_remainder fuel mf x y) in
+     (match r with NV v -> string_of_num v | NDivZero -> "EXC" | NFuel -> "FUEL")
+  | ["bignum_expt"; sa; a; e] ->
+     let x = big_of sa a in let ei = int_of_string e in
+     (match bignum_expt (nat_of_int 80) (nat_of_int (4 * (List.length (snd x)) * (ei + 2) + 32)) x (z_of_int ei) with
+      | Some v -> string_of_num v | None -> "FUEL")
+  | ["write_bignum"; a; base] ->
+     let x = zlist_of_string a in
+     (match write_bignum_digits (nat_of_int (64 * List.length x + 2)) x (z_of_int (int_of_string base)) with
+      | Some ds -> String.concat "" (List.map (fun d -> String.make 1 "0123456789ABCDEFGHIJKLMNOPQRSTUVWXYZ".[int_of_z d]) ds)
+      | None -> "FUEL")
+  | ["read_number"; base; txt] ->
+     let dv c = if c <= '9' then Char.code c - 48 else Char.code (Char.lowercase_ascii c) - 87 in
+     let ds = List.map (fun c -> z_of_int (dv c)) (List.of_seq (String.to_seq txt)) in
+     string_of_num (read_number_digits (z_of_int (int_of_string base)) ds Z0)
+  | ["num_compare"; a; b] ->
+     (match num_compare (num_of a) (num_of b) with Z0 -> "0" | Zpos _ -> "1" | Zneg _ -> "-1")
+  | ["bignum_sqrt"; a] ->
+     (* any estimate gives the same root (theorem sqrt_newton_sound); start from B^ceil(len/2) >= sqrt a *)
+     let x = zlist_of_string a in
+     let n = List.length x in
+     let seed = Big (z_of_int 1, List.init ((n + 1) / 2) (fun _ -> Z0) @ [z_of_int 1]) in
+     (match sqrt_loop (nat_of_int (64 * n + 40)) (nat_of_int (2 * n + 8)) (nat_of_int (8 * n + 32)) (Big (z_of_int 1, x)) seed with
+      | SV (s, r) -> string_of_num s ^ " " ^ string_of_num r
+      | SFuel -> "FUEL" | SDivZero -> "EXC")
+  | ["ratio_normalize"; n; d] ->
+     let x = num_of n and y = num_of d in
+     let l = function Fix _ -> 1 | Big (_, d) -> List.length d in
+     let k = l x + l y in
+     string_of_rres (ratio_normalize (nat_of_int (70 * k + 40)) (nat_of_int (2 * k + 8)) (nat_of_int (4 * k + 32)) x y)
+  | [("ratio_add" | "ratio_mul" | "ratio_div" | "ratio_compare") as fn; na; da; nb; db] ->
+     let na = num_of na and da = num_of da and nb = num_of nb and db = num_of db in
+     let l = function Fix _ -> 1 | Big (_, d) -> List.length d in
+     let k = l na + l da + l nb + l db in
+     let fuel = nat_of_int (70 * k + 40) and qf = nat_of_int (2 * k + 8) and mf = nat_of_int (4 * k + 32) in
+     (match fn with
+      | "ratio_add" -> string_of_rres (ratio_add fuel qf mf na da nb db)
+      | "ratio_mul" -> string_of_rres (ratio_mul fuel qf mf na da nb db)
+      | "ratio_div" -> string_of_rres (ratio_div fuel qf mf na da nb db)
+      | _ -> (match ratio_compare mf na da nb db with
+              | Some Z0 -> "0" | Some (Zpos _) -> "1" | Some (Zneg _) -> "-1" | None -> "FUEL"))
   | ["vm_add"; a; b] -> string_of_num (vm_add (num_of a) (num_of b))
   | ["vm_sub"; a; b] -> string_of_num (vm_sub (num_of a) (num_of b))
   | f -> "ERR unknown request " ^ String.concat " " f
